@@ -166,10 +166,8 @@ class PoW(Family):
         h = hv.to_bytes(32, 'little')
         want = R.pow_ok(h, nbits, limit)
         try:
-            r = core.CheckProofOfWork(h, nbits)
+            core.CheckProofOfWork(h, nbits)
             got = True
-            if r is not None:
-                raise Viol('CheckProofOfWork returned a value', None, repr(r))
         except core.CheckProofOfWorkError:
             got = False
         except core.ValidationError as e:
